@@ -103,8 +103,10 @@ def _vector_degree(vector: object) -> Optional[int]:
     """Largest polynomial degree among the elements of a vector operand."""
     if hasattr(vector, "_variables"):
         return 1
+    if not hasattr(vector, "_expressions"):
+        return None  # unknown operand kind: make no polynomial claim
     max_deg = 0
-    for sub_expr in getattr(vector, "_expressions", ()):
+    for sub_expr in vector._expressions:  # type: ignore[attr-defined]
         d = compute_degree(sub_expr)
         if d is None:
             return None
@@ -478,6 +480,25 @@ def _constant_value(expr: Expression) -> float | None:
     return None
 
 
+def _affine_terms_by_evaluation(expr: Expression) -> tuple[dict[str, float], float]:
+    """Coefficients and constant of a linear node without a structural rule.
+
+    Used for node types that can be classified as linear (``sum(x ** 1)``,
+    ``x.dot(constants)``) but are not taken apart by the extraction routines:
+    for an affine function ``f``, the constant is ``f(0)`` and the coefficient
+    of ``v`` is ``f(e_v) - f(0)``.
+    """
+    variables = list(expr.get_variables())
+    origin = {v.name: 0.0 for v in variables}
+    constant = float(expr.evaluate(origin))
+    coefficients: dict[str, float] = {}
+    for v in variables:
+        point = dict(origin)
+        point[v.name] = 1.0
+        coefficients[v.name] = float(expr.evaluate(point)) - constant
+    return coefficients, constant
+
+
 def extract_linear_coefficient(expr: Expression, var: Variable) -> float:
     """Extract the linear coefficient for a variable from an expression.
 
@@ -596,7 +617,8 @@ def _extract_coefficient_impl(expr: Expression, var: Variable) -> float:
             return -_extract_coefficient_impl(expr.operand, var)
         return 0.0
 
-    return 0.0
+    # Any other linear node (sum(x ** 1), x.dot(constants), ...)
+    return _affine_terms_by_evaluation(expr)[0].get(var.name, 0.0)
 
 
 def extract_constant_term(expr: Expression) -> float:
@@ -651,6 +673,11 @@ def _extract_constant_impl(expr: Expression) -> float:
         return sum(_extract_constant_impl(elem) for elem in elements)
 
     if isinstance(expr, BinaryOp):
+        # A variable-free sub-expression such as Constant(2) ** 3 is its value
+        whole = _constant_value(expr)
+        if whole is not None:
+            return whole
+
         if expr.op == "+":
             return _extract_constant_impl(expr.left) + _extract_constant_impl(
                 expr.right
@@ -690,7 +717,8 @@ def _extract_constant_impl(expr: Expression) -> float:
             return -_extract_constant_impl(expr.operand)
         return 0.0
 
-    return 0.0
+    # Any other linear node (sum(x ** 0), (x + 1).dot(constants), ...)
+    return _affine_terms_by_evaluation(expr)[1]
 
 
 @dataclass
@@ -949,6 +977,12 @@ def _extract_all_coefficients_impl(
         if expr.op == "neg":
             _extract_all_coefficients_impl(expr.operand, var_index, result, -multiplier)
         return
+
+    # Any other linear node (sum(x ** 1), x.dot(constants), ...)
+    for name, coefficient in _affine_terms_by_evaluation(expr)[0].items():
+        idx = var_index.get(name)
+        if idx is not None:
+            result[idx] += coefficient * multiplier
 
 
 class LinearProgramExtractor:
